@@ -497,25 +497,27 @@ def judge(ctx, rows, chunk=150):
             replay = dict(s=s, t=t, tx=row["tx"], query={k: q[k] for k in ("f", "iu", "wu")},
                           observed={k: [row["recs"][n - 1] for n in v] for k, v in q["o"].items()},
                           observed_git={k: [row["grecs"][n - 1] for n in v] for k, v in q["g"].items()}, verdict=b)
+            # one input class with several symptoms in the dirstate fast path (lstat error, missing records): see the
+            # known finding; everything else is classified by what differs
             swapped = q["f"] != ["all"] and _dir_path_became_file(s, t)
+            swap_sig = "%s:InterDirStateTree.iter_changes:filtered,non-empty-directory-path-now-a-file"
             for law in b.get("failed", []):
-                if swapped and (law == "dirstate=generic" or (law != "chk=generic" and "ds" in b.get("culprits", []))):
-                    # one input class, several symptoms (lstat error, missing records): see the known finding
-                    ctx.violation("%s:InterDirStateTree.iter_changes:filtered,non-empty-directory-path-now-a-file" % law,
-                                  "law %s fails for InterDirStateTree (%s)" % (law, where), replay)
-                    if law == "dirstate=generic":
-                        continue
-                    b = dict(b, culprits=[k for k in b["culprits"] if k != "ds"])
-                if law in ("chk=generic", "dirstate=generic"):
+                if law == "dirstate=generic" and swapped:
+                    ctx.violation(swap_sig % law, "law %s fails for InterDirStateTree (%s)" % (law, where), replay)
+                elif law in ("chk=generic", "dirstate=generic"):
                     name, a, g = (("InterCHKRevisionTree", "chk", "inv") if law == "chk=generic" else
                                   ("InterDirStateTree", "ds", "wt"))
                     for cls in _diff_classes(row["recs"], q["o"][a], q["o"][g], q):
                         ctx.violation("%s:%s.iter_changes:%s" % (law, name, cls),
                                       "%s and InterInventoryTree disagree: %s (%s)" % (name, cls, where), replay)
                 else:
-                    for k in b.get("culprits", []):
-                        ctx.violation("%s:%s:%s" % (law, IMPLS[k].split("(")[0] + ("" if "(" not in IMPLS[k] else "/" + k), _kinds(s, t)),
-                                      "law %s fails for %s (%s)" % (law, IMPLS[k], where), replay)
+                    culprits = b.get("culprits") or {}
+                    for k in (culprits.get(law, []) if isinstance(culprits, dict) else []):
+                        if k == "ds" and swapped:
+                            ctx.violation(swap_sig % law, "law %s fails for InterDirStateTree (%s)" % (law, where), replay)
+                        else:
+                            ctx.violation("%s:%s:%s" % (law, IMPLS[k].split("(")[0] + ("" if "(" not in IMPLS[k] else "/" + k), _kinds(s, t)),
+                                          "law %s fails for %s (%s)" % (law, IMPLS[k], where), replay)
             for law in b.get("gitfailed", []):
                 for k in b.get("gitculprits", []):
                     ctx.violation("%s:InterGitTrees/%s:%s" % (law, "working-tree" if k == "wt" else "revision-trees", _kinds(s, t)),
@@ -578,7 +580,7 @@ def run(ctx):
         pairs += fresh
     enumerated = len(seen)
     if ctx.quick:
-        pairs = ctx.rng.sample(pairs, min(len(pairs), 1000))
+        pairs = ctx.rng.sample(pairs, min(len(pairs), 700))
     core.fork_map(ctx, _replay, pairs, chunks_per_proc=1 if ctx.quick else 4)
     classes = sorted({tuple(c) for w in ctx.collected for c in w["classes"]})
     done = sum(w["pairs"] for w in ctx.collected)
